@@ -818,6 +818,27 @@ example : ∃ l, offsetsAt exampleDump.unloaded 0x3000 = some l ∧
     · exact absurd hn (by decide)
     · exact absurd hc (by decide)
 
+/-- `nameOf_last_readable` instantiated: entries after the last readable one for id 5 are unreadable -/
+example : nameOf ([(5, some "a"), (7, some "writer"), (5, none)] ++ (5, some "b") :: [(5, none)]) 5 = some "b" :=
+  nameOf_last_readable _ _ 5 "b" (by decide)
+
+/-- `statusPid_spec` instantiated: the first `Pid` line counts, `+12` parses, `4294967296` does not -/
+example : statusPid ([("Name", "x")] ++ ("Pid", "+12") :: [("Pid", "13")]) = 12 := by
+  rw [statusPid_spec _ _ _ (by decide)]; decide
+example : statusPid ([] ++ ("Pid", "4294967296") :: []) = 0 := by
+  rw [statusPid_spec _ _ _ (by decide)]; decide
+
+/-- `requesting_never_dump_thread`'s hypothesis is inhabited: position 2 of `exampleDump` -/
+example : (loop exampleDump 0 exampleThreads none).2 = some 2 ∧ isDumpThread exampleDump ⟨5, none⟩ = false := by decide
+
+/-- a frame inside a loaded module (hypothesis of `inLoadedModule_sound` and of the first clause
+    of `unloaded_offsets`) -/
+example : inLoadedModule [⟨0x2f00, 0x200, "m"⟩] 0x3000 = some true := by
+  simp [inLoadedModule, RangeMap.safe, RangeMap.tryFromIter, RangeMap.safeVec, RangeMap.sortOpt,
+    RangeMap.sortEntries, RangeMap.validOnly, RangeMap.pass, RangeMap.keep, RangeMap.disc,
+    RangeMap.mkRange, U64MAX, List.zipIdx]
+  decide
+
 end MdModel.Index
 namespace MdModel.Reason
 open MdModel MdModel.Gen
